@@ -29,6 +29,7 @@ def jobs(tier):
     # history = list of (kind, account[, to-account]) per asset
     add("Ba Sa", "Bd")
     add("Ba Sa", "Bd", lotfee=True)  # the lot carries a fiat fee: it is part of the cost of the unsold part
+    add("Ba Sa", "Bd", lotfee="total")  # the lot carries the exchange's own total (fiat_in_with_fee), unrelated to amount x price
     add("Ba Bb Bc", "Bd")  # one holder on two exchanges that sort around another holder's exchange
     add("Ba Bd Sa", "Ba")
     add("Ba Mad Sd", "Bb")
@@ -50,7 +51,7 @@ def jobs(tier):
 
 
 def describe(spec):
-    return "B1=[%s] B2=[%s] %s%s%s" % (spec["h1"], spec["h2"], spec["method"], " to_date" if spec["todate"] else "", " lot-fee" if spec.get("lotfee") else "")
+    return "B1=[%s] B2=[%s] %s%s%s" % (spec["h1"], spec["h2"], spec["method"], " to_date" if spec["todate"] else "", " lot-total" if spec.get("lotfee") == "total" else " lot-fee" if spec.get("lotfee") else "")
 
 
 def weight(spec):
@@ -76,6 +77,8 @@ def _parse(text, asset, lotfee=False):
         if tok[0] == "M":
             s["ex2"], s["ho2"] = ACC[tok[2]]
         s["row"] = 10 + i
+        if lotfee == "total" and i == 0 and table == "IN":
+            s["wf"] = True
         slots.append(s)
     return slots
 
@@ -87,6 +90,9 @@ def run(S, spec):
 
     S.set_years([2020])
     h = {"B1": Hist(S, _parse(spec["h1"], "B1", spec.get("lotfee")), [2020], prefix="x", price_min=100), "B2": Hist(S, _parse(spec["h2"], "B2"), [2020], prefix="y", price_min=100)}
+    if h["B1"].w:
+        # large enough for any unsold part (>= 1e-20 of the lot) to cost more than the 1e-13 at which rp2 compares
+        S.assume_cmp(h["B1"].w[0], ">=", 10**11)
     to_date = None
     if spec["todate"]:
         to_date = S.date(S.int("to", date(2019, 12, 30).toordinal(), date(2021, 1, 1).toordinal()))
